@@ -2,6 +2,8 @@
 
 package tlcp
 
+import x509 "github.com/emmansun/gmsm/smx509"
+
 // Verification hooks (build tag `verif` only) for the session-resumption checks: build
 // sessions with chosen fields (forged / pre-seeded cache entries), copy a cached session,
 // and read the Finished values of a connection. Nothing here is compiled without the tag.
@@ -40,4 +42,16 @@ func VerifSessionPeerRaw(s *SessionState) []byte {
 // VerifFinished returns the Finished verify_data values recorded by the last handshake.
 func VerifFinished(c *Conn) (client, server []byte) {
 	return append([]byte(nil), c.clientFinished[:]...), append([]byte(nil), c.serverFinished[:]...)
+}
+
+// VerifMakeSessionWithPeer is VerifMakeSession plus recorded peer certificates (DER); a
+// certificate that does not parse is skipped.
+func VerifMakeSessionWithPeer(id []byte, vers, suite uint16, master []byte, peerDER [][]byte) *SessionState {
+	s := VerifMakeSession(id, vers, suite, master)
+	for _, der := range peerDER {
+		if cert, err := x509.ParseCertificate(der); err == nil {
+			s.peerCertificates = append(s.peerCertificates, cert)
+		}
+	}
+	return s
 }
